@@ -106,6 +106,19 @@ CLAIMS["C15"] = dict(
     technique="Lean 4 proof (rounding-parametric float model, invariant by induction over event lists, ordered-field lemmas) + regenerated constants + step-wise differential correspondence on f64 bit patterns",
     ref="5 C15")
 
+SOCKNOTE = "Trusted: Lean kernel; constants translator; the hand-written dispatcher model (Model/Sock.lean) whose tie to socket.rs is the lockstep correspondence through the DispatcherDriver hook (branch taken by select!, SYN/RESET datagrams, result of every connect()/accept() call, and streams / connecting slots / SYN backlog / acceptor queue / next connection id after every operation); tokio's mpsc/oneshot semantics in the lockstep world are modelled in the Lean driver and validated, not proved; connection tasks are not run in lockstep - their inputs to the dispatcher (Shutdown(key), closed channel) are injected as events. "
+
+CLAIMS["C12"] = dict(
+    text="Lean theorems over every sequence of dispatcher loop iterations (acceptors, control requests, datagrams with any bytes from any address, idle wake-ups), every limit, random supply and requester liveness: the number of table entries never exceeds max_live_vsocks and keys (peer address, receive connection id) are unique (invariant by induction over event lists); every delivery made in an iteration is of the datagram just received, to the entry under (its source address, its connection id), and no other function of the dispatcher delivers; an entry (key -> connection instance) leaves the table only when that iteration processed the Shutdown request for its key or a datagram for exactly that key found the connection's task gone (no eviction by connects, SYNs, SYN-ACKs, floods or the limit); a connect beyond the limit fails with TooManyActiveConnections and changes nothing; SYN-ACKs and SYNs arriving at a full table leave it untouched.",
+    note=SOCKNOTE + "PARTIAL: that each connection's byte stream stays intact is C01 per connection plus the delivery theorem here; the composition over many real connection tasks is not mechanised. get_next_free_conn_id's loop is modelled with fuel 32768 (its termination needs fewer than 32768 same-parity keys for one address: true whenever max_live_vsocks <= 32768; beyond that the real loop would not terminate - observation, not reachable with the default 128). Observation recorded in DESIGN.md: Shutdown(key) names a key, not a connection instance, so a stale Shutdown can remove a successor connection that reused the key (needs the on_recv dead-channel removal and a reconnect with the same id to win a select! race against the pending Shutdown).",
+    technique="Lean 4 proof (table invariant and effect classification by induction over loop fuel and event lists) + regenerated constants + lockstep correspondence of the real Dispatcher",
+    ref="5 C12")
+CLAIMS["C13"] = dict(
+    text="Lean theorems for every state and event: the SYN backlog is a FIFO queue - in one loop iteration requests leave it only from the front and at most one enters, at the back, only while fewer than 32 wait, so it never exceeds 32 (induction over event lists); a SYN arriving while earlier SYNs are cached is never matched, only cached behind them or refused; acceptors (cached one, then channel) are likewise served from the front only; on_syn answers with a RESET naming the SYN's connection id and acknowledging its sequence number exactly when the request could not be cached because 32 are waiting; per-address connecting slots: insert fills exactly one free slot and fails only when all 4 are busy, pop (SYN-ACK matched by acknowledged sequence number, or ConnectDropped by token) frees exactly one and keeps the others.",
+    note=SOCKNOTE + "Found and fixed: D16 (a new SYN overtook cached SYNs when an accept call and the SYN became ready together; select! race reproduced deterministically enough through the hook's park/resume). PARTIAL: 'each successful connect is matched by exactly one accepted stream on the listener and the two are wired to each other' spans two sockets; here each connectOk/accepted effect consumes its slot/acceptor and inserts exactly its key, the cross-socket pairing is not mechanised. That a dropped connect()/accept() future releases its reservation relies on Rust running the drop guard (ConnectDropped) / closing the oneshot, which the lockstep exercises (dropconn/dropacc).",
+    technique="Lean 4 proof (queue suffix invariants by induction over loop fuel, slot lemmas) + regenerated constants + lockstep correspondence of the real Dispatcher incl. the select! race",
+    ref="5 C13")
+
 PENDING = {
 }
 
